@@ -21,6 +21,8 @@ reference encoder by C11), `Spec/Tree.lean` (C04).
                  (`NrfProofs/C05Link.lean`): a single-frame message between two neighbours.
 * `C05_route_partial` see the end of the file.
 * `C05_*_closed*`  the same theorems with `L3Contracts` discharged (`l3contracts`, `NrfProofs/L3Discharge.lean`).
+* `C05_two_nodes_frag*` a FRAGMENTED message (25..144 bytes) between two neighbours, end to end in the
+                 closed system (`NrfProofs/C05Frag{A,B,C,D,E}.lean`); at the end of the file.
 -/
 import NrfProofs.C05Forward
 import NrfProofs.C05Closed
@@ -29,6 +31,7 @@ import NrfProofs.C05RouteTop
 import NrfProofs.C05Example3
 import NrfProofs.C05Reasm
 import NrfProofs.L3Discharge
+import NrfProofs.C05FragE
 
 namespace Nrf.Props.C05
 open Nrf Nrf.Net Nrf.Spec Nrf.Proofs Nrf.Props.C04
@@ -206,10 +209,10 @@ theorem C05_local_loopback (f tp : Nat) (s : NetState) :
     type and the complete message** (FIRST starts the cache, every MORE is appended in sequence, LAST
     completes it), and an invalidated cache.
 
-    Not proved (the remaining gap for fragmented messages end to end): the closed-system interleaving —
-    that between two `send()`s of the fragment loop the receiver's `update()` (run at the sender's
-    scheduling points) drains its RX FIFO of depth 3, and that the radio's duplicate filter never hits
-    on consecutive fragments (needs the sender's PID sequence in the link contract). -/
+    The closed-system interleaving — between two `send()`s of the fragment loop the receiver's `update()`
+    (run at the sender's scheduling points) drains its RX FIFO, and the radio's duplicate filter never
+    hits on consecutive fragments (their bytes differ) — is `C05_two_nodes_frag` / `C05_two_nodes_frag_closed`
+    at the end of this file (two neighbours, end to end). -/
 theorem C05_frag_reassembly (a b i msgT : Nat) (msg : Bytes) (h : Header) (q : NetQueue) (f0 : Frame)
     (ha : a < 4096) (hb : b < 4096) (hi : i < 65536) (hm : msgT ≤ MAX_USR_DEF_MSG_TYPE)
     (hfa : h.fromNode = a) (hfb : h.toNode = b) (hfi : h.frameId = i)
@@ -595,7 +598,8 @@ example (hc : L3Contracts) : ∃ s1 s2,
     `_partial`: (1) schedules other than `runOthers` (e.g. the `update()` being made by a node off the
     route, or a router polled only later; here the first hop's own `update()` starts the cascade);
     (2) types 65..127, whose NETWORK_ACK round trip is C13's liveness; (3) messages longer than 24
-    bytes (fragment streams against the RX FIFO depth 3 and the reassembly cache); (4) routers that
+    bytes over more than one hop (one hop: `C05_two_nodes_frag_closed`; what routers add is described at the
+    end of the file); (4) routers that
     received frames before (`lastRx`), which needs the PID sequence of the sender in the invariant. -/
 theorem C05_route_partial (hc : L3Contracts) (cfg : AddrCfg) (hcfg : CfgOk cfg) (L : LinkCfg)
     (tree : Nat → List Nat) (s : NetState) (a : Nat) (d : List Nat) (ty : Int) (msg : Bytes)
@@ -965,5 +969,176 @@ example : ∃ s1 j1 jd, j1 < 3 ∧ Example.tree3 j1 = [1] ∧ jd < 3 ∧ Example
       · exact ⟨by decide, by intro g hg; cases hg⟩
       · exact absurd htj (by decide)
       · exact absurd htj (by decide))
+
+/-! ## fragmented messages, closed system -/
+
+/-- **A fragmented user message between two neighbours is delivered exactly once, intact** — closed system
+    (`runOthers`), loss-free, under the driver contracts.  The situation of `C05_two_nodes` with a message
+    of **25..144 bytes**, fragmentation on at the sender `a` (whose `max_message_length` admits the message)
+    and at the receiver `b`.  `write()` at `a` returns `True` and the caller's frame; after it returned,
+    the next `update()` of `b` (entered as the test session does, `runAs`) returns 150 (the type of the
+    last fragment), and between the initial and the final state **the queue of `b` has gained exactly one
+    frame — origin `x`, the message's own type, the complete bytes — and every other node's queue is
+    unchanged** (`DeliveredOnce`).
+
+    How (NrfProofs/C05FragB–D): the fragment loop of `_write_to_pipe` is the execution of the fragment plan
+    (`C05_local_tx`); every `send` of the loop is a scheduling point at which `b` — and nobody else — runs
+    `update()` and moves the fragment sent before from its RX FIFO (never more than one entry of the three)
+    into its reassembly cache (`FragSt.drain`); the `send` is acknowledged at once (`FragSt.send`), so the
+    2 ms pauses and `_tx_standby` rounds of the loop never happen; consecutive fragments differ in the
+    type / countdown bytes of their headers (`rxFrag_succ_ne`), so the receiving radio's duplicate filter
+    (same PID, address and bytes as the last accepted packet) is silent whatever the PIDs are; the LAST
+    fragment waits in the RX FIFO when `write()` returns and completes the message at `b`'s next
+    `update()` (`deliver_last`, `C05_frag_reassembly`). -/
+theorem C05_two_nodes_frag (hc : L3Contracts) (cfg : AddrCfg) (hcfg : CfgOk cfg) (L : LinkCfg)
+    (s : NetState) (a b : Nat) (x y : List Nat) (Pa Pb : List Bytes) (ty : Int) (msg : Bytes)
+    (hx : IsNode x) (hy : IsNode y) (hadj : nextHopSpec x y = y) (hxy : x ≠ y)
+    (hcur : s.cur = a) (hact : s.active = [a]) (hclosed : s.closed = true)
+    (ha : a < s.nodes.length) (hb : b < s.nodes.length) (hab : a ≠ b) (hsize : s.nodes.length ≤ 90000)
+    (hrid : ∀ i j, i < s.nodes.length → j < s.nodes.length → i ≠ j → s.ridAt i ≠ s.ridAt j)
+    (hWa : s.ridAt a < s.w.radios.length) (hWb : s.ridAt b < s.w.radios.length)
+    (hNa : NodeRadio L Pa true true 0x3E (s.nodeAt a).rf (s.radioAt a))
+    (haddr_a : (s.nodeAt a).a = nodeSpec x) (hcfg_a : (s.nodeAt a).cfg = cfg)
+    (hfrag_a : (s.nodeAt a).fragEnabled = true)
+    (hmax : msg.length ≤ (s.nodeAt a).maxMessageLength) (hlen : MAX_FRAG_SIZE < msg.length)
+    (hlen144 : msg.length ≤ 144)
+    (hNb : NodeRadio L Pb true true 0x3E (s.nodeAt b).rf (s.radioAt b))
+    (hPb : beginPipes cfg (val y) = .ok Pb) (hlast : (s.radioAt b).lastRx = none)
+    (haddr_b : (s.nodeAt b).a = nodeSpec y) (harr_b : (s.nodeAt b).arrivals = [])
+    (hkind_b : (s.nodeAt b).kind ≠ .meshMaster) (hfrag_b : (s.nodeAt b).queue.frag = true)
+    (hquiet : ∀ i, i < s.nodes.length → (s.radioAt i).rxFifo = [])
+    (hothers : ∀ r k, r ≠ s.ridAt a → r ≠ s.ridAt b → (s.w.radio r).listensTo k = none)
+    (hfaults : s.w.faults = []) (hty : 0 ≤ ty ∧ ty ≤ 127)
+    (hroom : ((s.nodeAt b).queue.frames.length : Int) < (s.nodeAt b).queue.maxSize)
+    (hnew : ∀ g ∈ (s.nodeAt b).queue.frames, ¬ (g.header.fromNode = val x ∧
+      g.header.frameId = s.nextId &&& 0xFFFF ∧ g.header.ty = ty.toNat)) :
+    ∃ s1 s2, nexec (apiNetWrite (val y) ty msg AUTO_ROUTING) s =
+        (.ok (true, callerFrame x y s.nextId ty msg), s1) ∧
+      nexec apiUpdate ((s1.ret).callAs b) = (.ok MSG_FRAG_LAST, s2) ∧
+      DeliveredOnce s.nodes s2.nodes b (val x) ty.toNat msg :=
+  two_nodes_frag hc cfg hcfg L s a b x y Pa Pb ty msg hx hy hadj hxy hcur hact hclosed ha hb hab hsize hrid hWa hWb
+    hNa haddr_a hcfg_a hfrag_a hmax hlen hlen144 hNb hPb hlast haddr_b harr_b hkind_b hfrag_b hquiet hothers
+    hfaults hty hroom hnew
+
+/-- non-vacuity: every hypothesis of `C05_two_nodes_frag` other than the driver contracts is satisfied by the
+    concrete network of `NrfProofs/C05Example.lean` (master `0o0` and child `0o1` as their constructors
+    leave them), the master writing 60 bytes (three fragments) with type 5 to the child -/
+example (hc : L3Contracts) : ∃ s1 s2,
+    nexec (apiNetWrite (val [1]) 5 (List.range 60) AUTO_ROUTING) Example.two =
+      (.ok (true, callerFrame [] [1] 4 5 (List.range 60)), s1) ∧
+    nexec apiUpdate ((s1.ret).callAs 1) = (.ok 150, s2) ∧
+    DeliveredOnce Example.two.nodes s2.nodes 1 0 5 (List.range 60) :=
+  C05_two_nodes_frag hc {} (by decide) Example.L Example.two 0 1 [] [1] Example.P0 Example.P1 5 (List.range 60)
+    (by decide) (by decide) (by decide) (by decide) rfl rfl rfl (by decide) (by decide) (by decide) (by decide)
+    (by
+      intro i j hi hj hij
+      have hi' : i < 2 := hi
+      have hj' : j < 2 := hj
+      have : (i = 0 ∧ j = 1) ∨ (i = 1 ∧ j = 0) := by omega
+      rcases this with ⟨rfl, rfl⟩ | ⟨rfl, rfl⟩ <;> decide)
+    (by decide) (by decide) Example.two_radio0 (by decide) (by decide) (by decide) (by decide) (by decide)
+    (by decide)
+    Example.two_radio1 Example.two_pipes1 (by decide) (by decide) (by decide) (by decide) (by decide)
+    (by
+      intro i hi
+      have hi' : i < 2 := hi
+      have : i = 0 ∨ i = 1 := by omega
+      rcases this with rfl | rfl <;> decide)
+    Example.two_others (by decide) (by decide) (by decide) (by decide)
+
+/-- **`C05_two_nodes_frag` unconditionally**: a fragmented user message (25..144 bytes) between two
+    neighbours is delivered exactly once, intact (closed system, loss-free) — the driver contracts are
+    discharged by `l3contracts` -/
+theorem C05_two_nodes_frag_closed (cfg : AddrCfg) (hcfg : CfgOk cfg) (L : LinkCfg)
+    (s : NetState) (a b : Nat) (x y : List Nat) (Pa Pb : List Bytes) (ty : Int) (msg : Bytes)
+    (hx : IsNode x) (hy : IsNode y) (hadj : nextHopSpec x y = y) (hxy : x ≠ y)
+    (hcur : s.cur = a) (hact : s.active = [a]) (hclosed : s.closed = true)
+    (ha : a < s.nodes.length) (hb : b < s.nodes.length) (hab : a ≠ b) (hsize : s.nodes.length ≤ 90000)
+    (hrid : ∀ i j, i < s.nodes.length → j < s.nodes.length → i ≠ j → s.ridAt i ≠ s.ridAt j)
+    (hWa : s.ridAt a < s.w.radios.length) (hWb : s.ridAt b < s.w.radios.length)
+    (hNa : NodeRadio L Pa true true 0x3E (s.nodeAt a).rf (s.radioAt a))
+    (haddr_a : (s.nodeAt a).a = nodeSpec x) (hcfg_a : (s.nodeAt a).cfg = cfg)
+    (hfrag_a : (s.nodeAt a).fragEnabled = true)
+    (hmax : msg.length ≤ (s.nodeAt a).maxMessageLength) (hlen : MAX_FRAG_SIZE < msg.length)
+    (hlen144 : msg.length ≤ 144)
+    (hNb : NodeRadio L Pb true true 0x3E (s.nodeAt b).rf (s.radioAt b))
+    (hPb : beginPipes cfg (val y) = .ok Pb) (hlast : (s.radioAt b).lastRx = none)
+    (haddr_b : (s.nodeAt b).a = nodeSpec y) (harr_b : (s.nodeAt b).arrivals = [])
+    (hkind_b : (s.nodeAt b).kind ≠ .meshMaster) (hfrag_b : (s.nodeAt b).queue.frag = true)
+    (hquiet : ∀ i, i < s.nodes.length → (s.radioAt i).rxFifo = [])
+    (hothers : ∀ r k, r ≠ s.ridAt a → r ≠ s.ridAt b → (s.w.radio r).listensTo k = none)
+    (hfaults : s.w.faults = []) (hty : 0 ≤ ty ∧ ty ≤ 127)
+    (hroom : ((s.nodeAt b).queue.frames.length : Int) < (s.nodeAt b).queue.maxSize)
+    (hnew : ∀ g ∈ (s.nodeAt b).queue.frames, ¬ (g.header.fromNode = val x ∧
+      g.header.frameId = s.nextId &&& 0xFFFF ∧ g.header.ty = ty.toNat)) :
+    ∃ s1 s2, nexec (apiNetWrite (val y) ty msg AUTO_ROUTING) s =
+        (.ok (true, callerFrame x y s.nextId ty msg), s1) ∧
+      nexec apiUpdate ((s1.ret).callAs b) = (.ok MSG_FRAG_LAST, s2) ∧
+      DeliveredOnce s.nodes s2.nodes b (val x) ty.toNat msg :=
+  C05_two_nodes_frag l3contracts cfg hcfg L s a b x y Pa Pb ty msg hx hy hadj hxy hcur hact hclosed ha hb hab hsize
+    hrid hWa hWb hNa haddr_a hcfg_a hfrag_a hmax hlen hlen144 hNb hPb hlast haddr_b harr_b hkind_b hfrag_b hquiet
+    hothers hfaults hty hroom hnew
+
+/-- non-vacuity (the concrete network of `NrfProofs/C05Example.lean`; 60 bytes = three fragments), without
+    any open hypothesis; running the model / the real classes on
+    `net 2 1 new n0 network 0 0 ; new n1 network 1 1 ; n0 write 1 5 <60 bytes> 56 ; n1 update` gives the same -/
+example : ∃ s1 s2,
+    nexec (apiNetWrite (val [1]) 5 (List.range 60) AUTO_ROUTING) Example.two =
+      (.ok (true, callerFrame [] [1] 4 5 (List.range 60)), s1) ∧
+    nexec apiUpdate ((s1.ret).callAs 1) = (.ok 150, s2) ∧
+    DeliveredOnce Example.two.nodes s2.nodes 1 0 5 (List.range 60) :=
+  C05_two_nodes_frag_closed {} (by decide) Example.L Example.two 0 1 [] [1] Example.P0 Example.P1 5 (List.range 60)
+    (by decide) (by decide) (by decide) (by decide) rfl rfl rfl (by decide) (by decide) (by decide) (by decide)
+    (by
+      intro i j hi hj hij
+      have hi' : i < 2 := hi
+      have hj' : j < 2 := hj
+      have : (i = 0 ∧ j = 1) ∨ (i = 1 ∧ j = 0) := by omega
+      rcases this with ⟨rfl, rfl⟩ | ⟨rfl, rfl⟩ <;> decide)
+    (by decide) (by decide) Example.two_radio0 (by decide) (by decide) (by decide) (by decide) (by decide)
+    (by decide)
+    Example.two_radio1 Example.two_pipes1 (by decide) (by decide) (by decide) (by decide) (by decide)
+    (by
+      intro i hi
+      have hi' : i < 2 := hi
+      have : i = 0 ∨ i = 1 := by omega
+      rcases this with rfl | rfl <;> decide)
+    Example.two_others (by decide) (by decide) (by decide) (by decide)
+
+/-! ### fragmented messages over more than one hop — what is missing
+
+The statement that remains open (DESIGN §7 `C05_frag`), in the form of `C05_route_closed_partial`:
+
+    theorem C05_route_frag_closed … (hok : NetOk cfg L tree s) … (hty : 0 ≤ ty ∧ ty ≤ 64)
+        (hlen : MAX_FRAG_SIZE < msg.length) (hlen144 : msg.length ≤ 144) … :
+        ∃ s1 j1 jd, … nexec (apiNetWrite (val d) ty msg AUTO_ROUTING) s = (.ok (true, …), s1) ∧
+          ∃ r s2, nexec apiUpdate ((s1.ret).callAs j1) = (.ok r, s2) ∧
+            DeliveredOnce s.nodes s2.nodes jd (val (tree a)) ty.toNat msg
+
+It is **not** a corollary of `C05_two_nodes_frag` + `route_all` (NrfProofs/C05Route.lean), for a reason found
+while attempting it (model and real classes agree, session
+`net 3 1 new n0 network 0 0 ; new n1 network 1 1 ; new n2 network 2 9 ; n2 write 0 5 <60 bytes> 56 ; n1 update ; n0 update`):
+the three fragment types 148..150 lie in 65..191, so `is_ack_type()` holds for every fragment *whatever the
+message's own type*; the last router of the route therefore answers **every fragment** with a NETWORK_ACK
+frame to the origin (`_write`, branch `.emit` of `ackCont`).  While the origin is still inside its fragment
+loop its radio is in the transmit role and deaf, so for all fragments but the last that NETWORK_ACK is sent
+and re-sent in vain: `send()` returns `False` after ARC+1 attempts, then `_tx_standby(tx_timeout)` re-sends
+until 25 ms of the router's clock have passed, the payload stays in the router's TX FIFO with MAX_RT latched
+and is flushed by the router's next `send()`.  The message is still delivered exactly once and `write()`
+returns `True` (the session above; the correspondence runs of harness/props/c05.py cover it), but a proof
+needs what the link layer of this development does not have yet:
+
+ 1. driver contracts for the **failing** transmit cycle (no radio listens to the address): `send` / `resend`
+    return `False`, leave `txFifo = [payload]`, `flags = MAX_RT`, CE high, and advance the virtual clock by
+    at least one SPI transaction (`L3Contracts` and `DrvFrame` say nothing about the clock; `NodeRadio`
+    demands `txFifo = []`);
+ 2. the time-bounded loop `txStandby` under those contracts (termination by the clock, not by success);
+ 3. versions of the `listenOn` / `setAA` / `listenOff` / `openTx` / `read` / `send` contracts for a node radio
+    with that stale TX FIFO entry (`send` then takes its `flush_tx` branch);
+ 4. the induction itself: per fragment a cascade down the route as in `route_step`, plus the NETWORK_ACK
+    travelling back over the routers that are on the call stack at that moment, with every router's
+    reception history (`lastRx`) in the invariant — for which `Nrf.L3.l3_send_pid` (the PID sequence of
+    `send`, NrfProofs/L3Send.lean) and `rxFrag_succ_ne` (consecutive fragments differ) are the ingredients.
+-/
 
 end Nrf.Props.C05
